@@ -3,6 +3,7 @@ import ast
 import linecache
 
 from .. import refsem
+from .. import terms as T
 from ..core import Check, Space
 
 # helper bodies by signature: (param kinds) -> [body source]; x, y are the helper's parameters
@@ -92,22 +93,33 @@ class C05(Check):
                             for s in range(min(3, len(SITES[sig]))):
                                 out.append((sig, b, form, s, o))
             return out
-        return [Space("helpers", {"signatures": [list(k) for k in BODIES], "forms": FORMS}, cases, runner="run_case")]
+        Q = tier == "quick"
+        nmax = 5 if Q else 6
+        return [Space("helpers", {"signatures": [list(k) for k in BODIES], "forms": FORMS}, cases, runner="run_case"),
+                Space(f"enumerated-bodies<={nmax}", {"body_grammar": "E1 productions attr op + app tup const First Count over the "
+                                                     "parameters (x: Jet[, y: Int]); every admissible naming of inner binders from "
+                                                     "{x, y, t}", "size": nmax, "forms": ["def1"] if Q else ["def1", "lambda"]},
+                      (lambda nmax=nmax, Q=Q: enumerated(nmax, ("def1",) if Q else ("def1", "lambda"))), runner="run_enum")]
+
+    def run_enum(self, payload):
+        sig, body, form, site = payload
+        return self._run(tuple(sig), body, form, site, None, repr(payload))
 
     def run_case(self, payload):
-        from func_adl import EventDataset
-
         sig, b, form, s, o = payload
         sig = tuple(sig)
+        return self._run(sig, BODIES[sig][b], form, SITES[sig][s], o, repr(payload))
+
+    def _run(self, sig, body, form, site_tpl, o, canon):
+        from func_adl import EventDataset
+
         params = ["x", "y"][:len(sig)]
-        body = BODIES[sig][b]
-        canon = repr(payload)
         res = {"n": 0, "nt": [canon], "oc": [], "tags": {}, "viol": []}
         if o is None:
             text = helper_def("h", params, body, form)
         else:
             text = helper_def("g", params, body, form) + helper_def("h", params, NESTED[sig][o], form)
-        site = SITES[sig][s].format(H="h")
+        site = site_tpl.format(H="h")
         lam_src = f"lambda e: {site}"
         text += f"def build(ds):\n    return ds.Select(\n        {lam_src}\n    )\n"
         _N[0] += 1
@@ -174,6 +186,32 @@ def _unparse(a):
         return ast.unparse(a)
     except Exception:
         return ast.dump(a)
+
+
+ENUM_SITES = {
+    ("Jet",): ["e.jets.Select(lambda j: {H}(j))", "e.jets.Select(lambda t: {H}(t))", "e.jets.Select(lambda x: {H}(x=x))"],
+    ("Jet", "Int"): ["e.jets.Select(lambda j: {H}(j, e.a))", "e.jets.Select(lambda t: {H}(t, t.pt))",
+                     "e.jets.Select(lambda y: {H}(y=y.eta, x=y))", "e.jets.Select(lambda x: {H}(x, x.eta + e.a))"],
+}
+
+
+def enumerated(nmax, forms):
+    g = T.Grammar(prods=frozenset("attr op bin app tup const first count".split()), seq_attrs=("tr",), int_attrs=("pt",),
+                  forms=("m",), count_forms=("m",))
+    out = []
+    for sig, ctx, names in ((("Jet",), (T.JET,), ("x",)), (("Jet", "Int"), (T.JET, T.INT), ("x", "y"))):
+        bodies = set()
+        for n in range(1, nmax + 1):
+            for t, x in g.gen(ctx, n):
+                if T.has(x, {"ds"}) or not T.has(x, {"var"}):
+                    continue
+                for nm in T.namings(x, ("x", "y", "t"), names):
+                    bodies.add(T.render(x, nm, names))
+        for b in sorted(bodies, key=lambda z: (len(z), z)):
+            for form in forms:
+                for site in ENUM_SITES[sig]:
+                    out.append((sig, b, form, site))
+    return out
 
 
 CHECK = C05()
